@@ -28,10 +28,13 @@
   The conditions are sufficient, not necessary: e.g. Bits(0) next to another never-written
   register is excluded although exchanging two blank registers is harmless.
 
-  Not modelled: pytket's own renaming and op semantics, `from_tk` (`make_units_adjacent`), the
-  backend path — these rest on the oracle of the check.
+  `from_tk.make_units_adjacent` is modelled (Model/TkFrom.lean) and compared with the code on every
+  run, but only a bounded statement is proved about it (`from_tk_adjacent_upto6`, a decided table).
+  Not modelled: pytket's own renaming and op semantics, the rest of `from_tk`, the backend path —
+  these rest on the oracle of the check.
 -/
 import Proofs.TkWitness
+import Model.TkFrom
 
 namespace DV.C13
 open DV DV.Tk
@@ -98,6 +101,19 @@ theorem override_after_pp_unspecified :
     wOverridePP.firstViolation = some ("override_after_pp", 7) ∧ (∃ st, toTk wOverridePP = .ok st) ∧
       canon wOverridePP = .error .notImpl :=
   ⟨Tk.wOverridePP_violation, Tk.wOverridePP_exported, Tk.wOverridePP_canon⟩
+
+/-! ### from_tk.make_units_adjacent (Model/TkFrom.lean): a bounded statement only -/
+
+/-- `tk.Circuit(4).CX(0, 3)`: after the swaps the positions 0, 1 hold the units 0, 2. -/
+theorem from_tk_adjacent_fails :
+    adjacentOK 4 [0, 3] = false ∧ arrangement 4 (makeUnitsAdjacent [0, 3]).2 = [0, 2, 3, 1] := by decide
+
+/-- On up to 6 wires the swaps bring a two-unit gate's units to consecutive positions exactly when
+    the second unit is not 3 or more to the right of the first (tk.py:300-304 rotates the wrong
+    way).  The general statement for every width is not proved. -/
+theorem from_tk_adjacent_upto6 :
+    pairsWhere 6 false = [(0, 3), (0, 4), (0, 5), (1, 4), (1, 5), (2, 5)] ∧
+      (pairsWhere 6 true).length = 24 := by decide
 
 /-! ### the hypotheses are met by non-trivial circuits -/
 
